@@ -166,7 +166,7 @@ func (c *config) WriteTCPServicesMaps() error {
 // config file. This func doesn't change model state, except the
 // link to the frontend maps.
 func (c *config) WriteFrontendMaps() error {
-	if c.frontend.Maps != nil && !c.hosts.Changed() {
+	if c.frontend.Maps != nil && !c.hosts.Changed() && !c.rootRedirectBackendChanged() {
 		// TODO Maps!=nil just to preserve the current behavior. Check if this can be removed.
 		// hosts are clean, maps are updated
 		return nil
@@ -345,6 +345,24 @@ func (c *config) WriteFrontendMaps() error {
 	}
 	c.frontend.Maps = fmaps
 	return nil
+}
+
+// rootRedirectBackendChanged returns true if a changed backend serves a path
+// of a host that has a root redirect. The root ssl redirect map is the only
+// frontend map whose content is read from the backend (ssl-redirect of the
+// backend path) instead of the host, so it can change while hosts are clean.
+func (c *config) rootRedirectBackendChanged() bool {
+	check := func(backends map[string]*hatypes.Backend) bool {
+		for _, backend := range backends {
+			for _, path := range backend.Paths {
+				if host := c.hosts.FindHost(path.Hostname()); host != nil && host.RootRedirect != "" {
+					return true
+				}
+			}
+		}
+		return false
+	}
+	return check(c.backends.ItemsAdd()) || check(c.backends.ItemsDel())
 }
 
 // WriteBackendMaps reads the model and writes haproxy's maps
